@@ -19,8 +19,8 @@
           ci    : BOOLEAN - patterns are matched case-insensitively]                              *)
 EXTENDS Naturals, Sequences, FiniteSets, TLC, Json
 
-CONSTANTS Seeds,          \* set of partial scenarios (initial states; parallelises the generation)
-          ScenariosOf(_)  \* seed -> set of scenarios
+CONSTANTS Seeds,          \* set of partial scenarios (chosen by the first step; parallelises the generation)
+          ScenariosOf(_)  \* seed -> set of scenarios (chosen by the second step)
 
 VARIABLES scn, pc, ks, vis      \* ks = K(scn): the scenario with its ignore files parsed
 vars == <<scn, pc, ks, vis>>
@@ -236,9 +236,10 @@ SpecSane ==
           /\ vis = WalkFrom(ks, "")
           /\ \A f \in vis : \A d \in AncestorDirs(f) : ~Excluded(ks, d, TRUE)
           \* without ignore files nothing is ignored
-          /\ Visible([scn EXCEPT !.ign = <<>>]) = {scn.files[n] : n \in 1..Len(scn.files)}
+          /\ scn.ign = <<>> => vis = {scn.files[n] : n \in 1..Len(scn.files)}
           \* comments and blank lines do not take part in "last match wins"
-          /\ vis = Visible([scn EXCEPT !.ign = [n \in 1..Len(scn.ign) |-> Uncomment(scn.ign[n])]])
+          /\ (\E n \in 1..Len(scn.ign) : \E i \in 1..Len(scn.ign[n].lines) : IsComment(scn.ign[n].lines[i]))
+               => vis = Visible([scn EXCEPT !.ign = [n \in 1..Len(scn.ign) |-> Uncomment(scn.ign[n])]])
           \* a deeper ignore file overrides a shallower one: whenever the deepest applicable file has an
           \* opinion about a file, that opinion alone decides it (given its directories are visited)
           /\ \A f \in ks.files :
